@@ -2,8 +2,8 @@
 # run every stored seeded change against the check of the property it breaks; one line per change
 OUT=${OUT:-/verif/seeded/RESULTS.tsv}
 : > $OUT.tmp
-for d in /verif/seeded/${ONLY:-C*}/; do
-  id=$(basename $d); pid=${id%-*}
+for id in $(cd /verif/seeded && ls -d ${ONLY:-C*} 2>/dev/null | grep "^C"); do
+  pid=${id%-*}
   [ "$pid" = "C16" ] && continue
   res=$(timeout 1500 /verif/tools/trymut.sh $id $pid 2>/dev/null)
   rc=$?
